@@ -374,3 +374,28 @@ package keeper
 //@   loop L3 invariant forall m int :: 0 <= m && m <= rangeindex ==> !contains(ignore0, sps[m].Creator)
 //@   loop L3 invariant forall a int, b int :: 0 <= a && a < b && b <= rangeindex ==> sps[a].Creator != sps[b].Creator
 //@   loop L3 decreases [C02.sp.term] len(res_RandomIndex) - rangeindex
+
+// ---- faults (C19) and the penalty tick
+
+//@ store FaultIdx  kv=node/Fault/value/   key=node_FaultKey raw
+//@ store FaultById kv=node/Fault/faultId/ key=strbytes      val=github.com/SaoNetwork/sao/x/node/types.Fault
+
+//@ func (Keeper) SetFault(ctx, fault)
+//@   requires fault != nil
+//@   modifies FaultIdx, FaultById, *fault
+//@   nopanic [C02.setfault.nopanic]
+//@   ensures [C19.setfault.frame] fault.Provider == old(fault.Provider) && fault.ShardId == old(fault.ShardId) && fault.Status == old(fault.Status) && fault.Penalty == old(fault.Penalty)
+
+// DoPenalty: every 600 blocks confirmed faults accrue penalty points; providers above the maximum are taken offline.
+// The second loop ranges over a Go map: its effect is stated as a function of the map's content only (order-free).
+//@ func (Keeper) DoPenalty(ctx)
+//@   requires forall c string :: has(Node, c) ==> Node[c].Creator == c
+//@   modifies FaultIdx, FaultById
+//@   loop L1 invariant 0 <= itpos()
+//@   loop L2 invariant [C01.maporder.penalty] forall k bytes :: rawsel(FaultIdx, k) ==
+//@       (visited(keyinv(Node, k)) && indom(totalPenaltyMap, keyinv(Node, k)) && totalPenaltyMap[keyinv(Node, k)] > maxPenalty && has(Node, keyinv(Node, k)) && k == keyof(Node, keyinv(Node, k))
+//@          ? marshal(with(Node[keyinv(Node, k)], Status, Node[keyinv(Node, k)].Status & 1)) : entry(rawsel(FaultIdx, k)))
+//@   loop L2 invariant [C01.maporder.penalty] forall p string :: visited(p) ==> indom(totalPenaltyMap, p)
+//@   loop L2 ensures [C01.maporder.penalty] forall k bytes :: rawsel(FaultIdx, k) ==
+//@       (indom(totalPenaltyMap, keyinv(Node, k)) && totalPenaltyMap[keyinv(Node, k)] > maxPenalty && has(Node, keyinv(Node, k)) && k == keyof(Node, keyinv(Node, k))
+//@          ? marshal(with(Node[keyinv(Node, k)], Status, Node[keyinv(Node, k)].Status & 1)) : entry(rawsel(FaultIdx, k)))
